@@ -127,7 +127,7 @@ fn run_all(text: &str) -> Vec<(&'static str, String, String)> {
     out
 }
 
-fn case_text(workload: &str, k: u64, rng: &mut Rng, acc: &mut Acc, corpus: &[corpus::Prog], cat: &[(String, String)]) -> Option<(String, String)> {
+fn case_text(workload: &str, k: u64, rng: &Rng, acc: &mut Acc, corpus: &[corpus::Prog], cat: &[(String, String)]) -> Option<(String, String)> {
     match workload {
         "catalogue" => {
             let (n, t) = cat.get(k as usize)?;
@@ -208,8 +208,8 @@ pub fn worker(args: &[String]) -> i32 {
             let _ = o.flush();
         }
         let mut acc = Acc::default();
-        let mut rng = Rng::new(seed, &format!("C04/{}", workload), k);
-        let res = match case_text(&workload, k, &mut rng, &mut acc, &corpus, &cat) {
+        let rng = Rng::new(seed, &format!("C04/{}", workload), k);
+        let res = match case_text(&workload, k, &rng, &mut acc, &corpus, &cat) {
             Some((name, text)) => {
                 let panics = run_all(&text);
                 json!({"k": k, "name": name, "evals": 30, "bytes": text.len(),
